@@ -143,6 +143,23 @@ pub fn park() {
     rt::park(location!());
 }
 
+/// The closure of a thread that has not started yet.
+///
+/// If an iteration fails before the thread starts, the closure is dropped with
+/// the scheduler while the panic unwinds out of the model, outside the
+/// execution. Values it captured may be loom handles (e.g. an `Arc` clone),
+/// whose destructors need the execution context: dropping them there would
+/// panic again and abort the process. Leak the closure instead.
+struct Unstarted<F>(Option<F>);
+
+impl<F> Drop for Unstarted<F> {
+    fn drop(&mut self) {
+        if std::thread::panicking() {
+            std::mem::forget(self.0.take());
+        }
+    }
+}
+
 fn spawn_internal<F, T>(
     f: F,
     name: Option<String>,
@@ -160,7 +177,11 @@ where
     let id = {
         let name = name.clone();
         let result = result.clone();
+        let f = Unstarted(Some(f));
         rt::spawn(stack_size, move || {
+            let mut f = f;
+            let f = f.0.take().expect("thread closure already taken");
+
             rt::execution(|execution| {
                 init_current(execution, name);
             });
